@@ -106,6 +106,16 @@ def enginesStepM (ps : PState) (_i : Nat) (toks : List String) : PState × StepO
         if order == "Fraw" then
           pure (st, { d with ap := { d.ap with strides := calcStridesCol sh, o := { d.ap.o with col := true } } })
         else pure (st, d))
+  -- `Itol(i, shape, strides)`: the flat index split by `divmod` (assembly in the default build, `mathutils_go.go` in the
+  -- `noasm` build); no tensor is involved, so indices beyond 2^31 cost nothing
+  | ["itol", i, shape, strides] =>
+    match i.toInt?, parseIntList shape, parseIntList strides with
+    | some i, some sh, some st =>
+      (ps, match itol i sh st with
+        | .ok cs => .fields s!"r=ok coords={showInts cs}"
+        | .error (.err _) => .fields "r=err"
+        | .error (.panic _) => .fields "r=panic")
+    | _, _, _ => (ps, .fields "r=badprog")
   | "eadd" :: via :: a :: b :: optToks =>
     let po := parseOpts ps optToks
     if po.bad then (ps.failVar, .fields "r=skip") else
@@ -152,6 +162,15 @@ def enginesStepS (psBefore psAfter : PState) (ss : SState) (i : Nat) (toks : Lis
   let fin := finS psAfter
   match toks with
   | ["enew", dt, shape, order, _] => stepS psBefore psAfter ss i ["new", dt, shape, order] mres
+  -- specification of `Itol` for the default row-major strides of the shape and an index inside the array: coordinate `d`
+  -- is `(i / stride_d) mod shape_d` (stated axis by axis, without the running remainder of the implementation)
+  | ["itol", idx, shape, strides] =>
+    match idx.toInt?, parseIntList shape, parseIntList strides with
+    | some n, some sh, some st =>
+      if st == calcStrides sh && sh.all (· > 0) && 0 ≤ n && n < totalSize sh && !sh.isEmpty then
+        fin ss0 (some s!"r=ok coords={showInts (List.zipWith (fun d s => (n / s) % d) sh st)}")
+      else fin ss0 none
+    | _, _, _ => fin ss0 none
   | "eadd" :: via :: a :: b :: opts => stepS psBefore psAfter ss i ("bin" :: "add" :: via :: a :: b :: opts) mres
   | ["fma", a, x, y] =>
     match sObj psBefore ss0 a, sObj psBefore ss0 y with
@@ -178,6 +197,6 @@ def enginesStepS (psBefore psAfter : PState) (ss : SState) (i : Nat) (toks : Lis
   | _ => fin ss0 none
 
 def enginesFamily : Family :=
-  { name := "Engines", keys := ["enew", "eadd", "fma"], stepM := enginesStepM, stepS := enginesStepS, excl := enginesExcl }
+  { name := "Engines", keys := ["enew", "eadd", "fma", "itol"], stepM := enginesStepM, stepS := enginesStepS, excl := enginesExcl }
 
 end TM
